@@ -2910,6 +2910,62 @@ theorem tot_eq_sum_enumeration_of_inj_surj (M : ι → ι → ℝ) (k : ℕ) (ce
 
 end cellsum
 
+section nbrsum
+variable {ι : Type} [Fintype ι] [DecidableEq ι]
+open BigOperators Finset
+
+/-- `nbrsum(G, u, n)`: the sum of G over all ordered pairs of neighbours of u (neighbours: G u v ≠ 0) -/
+noncomputable def nbrsum (G : ι → ι → ℝ) (u : ι) : ℝ := ∑ v, ∑ w, if G u v ≠ 0 ∧ G u w ≠ 0 then G v w else 0
+
+/-- an injective enumeration of exactly the elements satisfying `P` has `univ.filter P` as its image -/
+theorem nbr_image_enum (P : ι → Prop) [DecidablePred P] (k : ℕ) (V : Fin k → ι)
+    (hP : ∀ a, P (V a)) (hcov : ∀ x, P x → ∃ a, V a = x) :
+    (univ : Finset (Fin k)).image V = univ.filter P := by
+  ext x
+  simp only [mem_image, mem_univ, true_and, mem_filter]
+  constructor
+  · rintro ⟨a, rfl⟩
+    exact hP a
+  · exact hcov x
+
+/-- summing `f` along an injective enumeration of exactly the elements satisfying `P` -/
+theorem nbr_sum_enum (f : ι → ℝ) (P : ι → Prop) [DecidablePred P] (k : ℕ) (V : Fin k → ι)
+    (hinj : Function.Injective V) (hP : ∀ a, P (V a)) (hcov : ∀ x, P x → ∃ a, V a = x) :
+    ∑ a, f (V a) = ∑ x, if P x then f x else 0 := by
+  rw [← Finset.sum_filter, ← nbr_image_enum P k V hP hcov,
+    Finset.sum_image (fun a _ b _ h => hinj h)]
+
+/-- the sub-matrix indexed by an injective enumeration `V` of exactly the elements satisfying `P`
+sums to the sum over pairs in `P` -/
+theorem sum_enum_pairs (G : ι → ι → ℝ) (P : ι → Prop) [DecidablePred P] (k : ℕ) (V : Fin k → ι)
+    (hinj : Function.Injective V) (hP : ∀ a, P (V a)) (hcov : ∀ x, P x → ∃ a, V a = x) :
+    ∑ a, ∑ b, G (V a) (V b) = ∑ v, ∑ w, if P v ∧ P w then G v w else 0 := by
+  have h1 : ∀ a, ∑ b, G (V a) (V b) = ∑ w, if P w then G (V a) w else 0 :=
+    fun a => nbr_sum_enum (fun w => G (V a) w) P k V hinj hP hcov
+  simp only [h1]
+  rw [nbr_sum_enum (fun v => ∑ w, if P w then G v w else 0) P k V hinj hP hcov]
+  refine Finset.sum_congr rfl (fun v _ => ?_)
+  by_cases hv : P v
+  · simp [hv]
+  · simp [hv]
+
+/-- the sub-matrix indexed by an enumeration of the neighbours of `u` sums to `nbrsum G u` -/
+theorem nbrsum_enum (G : ι → ι → ℝ) (u : ι) (k : ℕ) (V : Fin k → ι)
+    (hinj : Function.Injective V) (hP : ∀ a, G u (V a) ≠ 0) (hcov : ∀ x, G u x ≠ 0 → ∃ a, V a = x) :
+    ∑ a, ∑ b, G (V a) (V b) = nbrsum G u := by
+  unfold nbrsum
+  exact sum_enum_pairs G (fun x => G u x ≠ 0) k V hinj hP hcov
+
+/-- the enumeration has exactly as many entries as row `u` has non-zero entries -/
+theorem card_enum (G : ι → ι → ℝ) (u : ι) (k : ℕ) (V : Fin k → ι)
+    (hinj : Function.Injective V) (hP : ∀ a, G u (V a) ≠ 0) (hcov : ∀ x, G u x ≠ 0 → ∃ a, V a = x) :
+    k = cnt (G u) := by
+  unfold cnt
+  rw [← nbr_image_enum (fun x => G u x ≠ 0) k V hP hcov, Finset.card_image_of_injective _ hinj,
+    Finset.card_univ, Fintype.card_fin]
+
+end nbrsum
+
 -- (tenth batch, `section dijkstra`: definitions `wwalk`, `reachw`, `wd`; `wd_self`, `wd_nonneg`, `wd_le`, `le_wd`, `wd_approx`, `wd_attained`
 --  (the infimum is a minimum), `wd_relax`, `wd_triangle`, `wwalk_cross(_wd)`, `dijkstra_lower`, `dijkstra_step`, `dijkstra_step_le`,
 --  `dijkstra_step_inv`, `dijkstra_step_T`, `dijkstra_init`, `dijkstra_exhausted`, `dijkstra_smt`, `wd_smt`, `reachw_iff_sdist`, `reachw_iff_walk(_pos)`, `wd_pos`, `wd_pred`:
@@ -2926,5 +2982,6 @@ end cellsum
 -- (sixteenth batch, `section nestcount`: `ccnt_le_dset`, `cnt_le_rset`, `ccnt_pos_of_witness`, `cnt_pos_of_witness`, `csum_le_wset`: all proved.)
 -- (seventeenth batch, `section csumpos`: `csum_pos_of_witness`: proved.)
 -- (eighteenth batch, `section cellsum`: `tot_eq_sum_enumeration`, `tot_eq_sum_enumeration_of_inj_surj`: all proved.)
+-- (nineteenth batch, `section nbrsum`: definition `nbrsum`; `sum_enum_pairs`, `nbrsum_enum`, `card_enum` (helpers `nbr_image_enum`, `nbr_sum_enum`): all proved.)
 
 end VerifLemmas
